@@ -128,6 +128,10 @@ class BoomBase(BaseException):     # not an Exception subclass (like KeyboardInt
 
 class World:
     def __init__(self, latency=None):
+        # a history must not inherit a server address that an earlier history failed to restore
+        guard = 0
+        while type(s._addr).__name__ == 'BundleNetAddr' and guard < 1000:
+            s._addr = s._addr._save_addr; guard += 1
         s._set_client_id(0)       # new node / bus / buffer allocators, default groups
         Buffer._server_caches.clear()
         s.latency = DEFAULT_LATENCY if latency is None else float(Fraction(latency))
